@@ -504,7 +504,7 @@ fn g3_history(acc: &mut Acc, r: &mut Rng, steps: u64) {
 }
 
 pub fn run(ctx: &Ctx) -> (CheckMeta, Acc) {
-    let n = ctx.tier.pick(200, 6000);
+    let n = ctx.tier.pick(200, 12000);
     let steps = ctx.tier.pick(150, 300);
     let ph = hash_str("C18");
     let total = run_shards(ctx, 16, |sh, acc| {
